@@ -2442,4 +2442,21 @@ M("b6-outputs-not-checked", "C11", "fire B6", "src/convert.rs",
             return Err(FromBristolError::InvalidWireIndex(wire));
         }
 """, "", "declared outputs that no gate assigns are accepted")
+REVERT("revert-duplicate-definitions", "C17", "fire T19 T16 T15", "ea45b65", "pre-fix tree: duplicate definitions replace each other, duplicate variants and pattern suffixes unchecked")
+M("t19-fn-insert-result-dropped", "C17", "fire T19", "src/parse.rs",
+  """                        if fn_defs.insert(fn_def.identifier.clone(), fn_def).is_some() {
+                            self.push_error(ParseErrorEnum::InvalidTopLevelDef, meta);
+                        }""",
+  """                        let _ = fn_defs.insert(fn_def.identifier.clone(), fn_def);""", "a second fn definition replaces the first silently")
+M("t19-quiet-contains-key-form", "C17", "quiet", "src/parse.rs",
+  """                        if enum_defs.insert(enum_name, enum_def).is_some() {
+                            self.push_error(ParseErrorEnum::InvalidTopLevelDef, meta);
+                        }""",
+  """                        if let Some(_replaced) = enum_defs.insert(enum_name, enum_def) {
+                            self.push_error(ParseErrorEnum::InvalidTopLevelDef, meta);
+                        }""", "behaviour-preserving: the replaced definition is matched with if let")
+M("t15-range-suffix-unchecked", "C17", "fire T15", "src/check.rs",
+  """                    expect_pattern_suffix(ty, Type::Unsigned(*suffix), meta)?;
+                    expect_pattern_in_range(ty, *from as i128, *to as i128, meta)?;""",
+  """                    expect_pattern_in_range(ty, *from as i128, *to as i128, meta)?;""", "the suffix of an unsigned range pattern is not compared with the matched type")
 
